@@ -177,7 +177,8 @@ impl Scenario for C12 {
         }
         let tf: Vec<(usize, usize, usize)> = if t { vec![(B, A, C), (C, B, A), (B, A, B)] } else { vec![(B, A, C)] };
         for (spender, from, to) in tf {
-            for amt in [Amt::One, Amt::Allow, Amt::AllowPlus1, Amt::BalPlus1, Amt::Zero, Amt::Neg] {
+            // (Five: exactly what an allowance granted earlier was for, whatever has become of it since)
+            for amt in [Amt::One, Amt::Allow, Amt::AllowPlus1, Amt::BalPlus1, Amt::Zero, Amt::Neg, Amt::Five] {
                 v.push(Act::TransferFrom { spender, from, to, amt });
             }
         }
@@ -187,7 +188,7 @@ impl Scenario for C12 {
             }
         }
         for (spender, from) in if t { vec![(B, A), (C, B)] } else { vec![(B, A)] } {
-            for amt in [Amt::One, Amt::Allow, Amt::AllowPlus1, Amt::Zero] {
+            for amt in [Amt::One, Amt::Allow, Amt::AllowPlus1, Amt::Zero, Amt::Five] {
                 v.push(Act::BurnFrom { spender, from, amt });
             }
         }
